@@ -282,9 +282,9 @@ theorem framing_preserved_adaptorDecompress (r r' : Resp β)
       · cases hd
       · cases hd; right; simp only [Pl.content]; rw [Hdr.get_del_other _ ne_CL_CE, Hdr.get_set_same]
 
-theorem framing_preserved_adaptorHandle (a : AdSpec) (r : Resp β)
-    (h : WellFramed ops r) : WellFramed ops (adaptorHandle ops a r) := by
-  unfold adaptorHandle
+theorem framing_preserved_adaptorCore (a : AdSpec) (r : Resp β)
+    (h : WellFramed ops r) : WellFramed ops (adaptorCore ops a r) := by
+  unfold adaptorCore
   have h1 := framing_preserved_adaptorBody ops a.body r h
   have h2 : WellFramed ops (if a.compress then adaptorCompress ops (adaptorBody ops a.body r) else adaptorBody ops a.body r) := by
     split
@@ -297,14 +297,30 @@ theorem framing_preserved_adaptorHandle (a : AdSpec) (r : Resp β)
     | some r' => simpa [hd] using framing_preserved_adaptorDecompress ops _ r' h2 hd
   · exact h2
 
-/-- **Any** chain of ResponseAdaptor filters (any number, any body / compress / decompress
-settings) keeps a well-framed response well-framed. -/
-theorem pipeline_of_transformations_well_framed (as : List AdSpec) (r : Resp β)
-    (h : WellFramed ops r) : WellFramed ops (adaptorChain ops as r) := by
+/-- The adaptor's `header:` section keeps the framing as long as it does not name Content-Length. -/
+theorem framing_preserved_adaptHeader (a : AdSpec) (r : Resp β) (hk : keyCL ∉ a.hkeys)
+    (h : WellFramed ops r) : WellFramed ops { r with hdr := adaptHeader a r.hdr } := by
+  unfold WellFramed at *
+  simp only []
+  rw [get_adaptHeader_other a r.hdr keyCL hk]
+  exact h
+
+theorem framing_preserved_adaptorHandle (a : AdSpec) (r : Resp β) (hk : keyCL ∉ a.hkeys)
+    (h : WellFramed ops r) : WellFramed ops (adaptorHandle ops a r) := by
+  unfold adaptorHandle
+  exact framing_preserved_adaptorCore ops a _ (framing_preserved_adaptHeader ops a r hk h)
+
+/-- **Any** chain of ResponseAdaptor filters (any number, any header / body / compress /
+decompress settings, the header sections not naming Content-Length) keeps a well-framed
+response well-framed. -/
+theorem pipeline_of_transformations_well_framed (as : List AdSpec) (has : ∀ a ∈ as, keyCL ∉ a.hkeys)
+    (r : Resp β) (h : WellFramed ops r) : WellFramed ops (adaptorChain ops as r) := by
   unfold adaptorChain
   induction as generalizing r with
   | nil => exact h
-  | cons a t ih => exact ih _ (framing_preserved_adaptorHandle ops a r h)
+  | cons a t ih =>
+    exact ih (fun x hx => has x (by simp [hx])) _
+      (framing_preserved_adaptorHandle ops a r (has a (by simp)) h)
 
 /-- `FetchPayload` in buffered mode turns a coherent backend response into a well-framed one:
 the payload has exactly the declared number of bytes, or there is no declared length.
@@ -404,9 +420,9 @@ theorem content_roundtrip_proxyCompress (hgz : ∀ b, ops.ungz (ops.gz b) = some
         cases hp : r.payload <;> simp [hp, Pl.content, Pl.map] at h ⊢ <;> rw [← h] <;> exact hgz _
 
 /-- ResponseAdaptor `compress` / `decompress` (no `body:`) keep the decoded content. -/
-theorem content_roundtrip_adaptor (hgz : ∀ b, ops.ungz (ops.gz b) = some b)
+theorem content_roundtrip_adaptorCore (hgz : ∀ b, ops.ungz (ops.gz b) = some b)
     (a : AdSpec) (ha : a.body = "") (r : Resp β) (b : β) (h : decoded ops r = some b) :
-    decoded ops (adaptorHandle ops a r) = some b := by
+    decoded ops (adaptorCore ops a r) = some b := by
   have hcomp : ∀ r : Resp β, decoded ops r = some b → decoded ops (adaptorCompress ops r) = some b := by
     intro r h
     unfold adaptorCompress
@@ -449,7 +465,7 @@ theorem content_roundtrip_adaptor (hgz : ∀ b, ops.ungz (ops.gz b) = some b)
         rw [h] at hd; cases hd
         unfold decoded; simp only [Pl.content]
         rw [Hdr.get_del_same]; simp
-  unfold adaptorHandle
+  unfold adaptorCore
   have h1 : adaptorBody ops a.body r = r := by simp [adaptorBody, ha]
   simp only [h1]
   have h2 : decoded ops (if a.compress then adaptorCompress ops r else r) = some b := by
@@ -462,10 +478,22 @@ theorem content_roundtrip_adaptor (hgz : ∀ b, ops.ungz (ops.gz b) = some b)
     | some r' => simpa [hd] using hdec _ r' h2 hd
   · exact h2
 
+/-- Full `Handle` (header section not naming Content-Encoding, no `body:`). -/
+theorem content_roundtrip_adaptor (hgz : ∀ b, ops.ungz (ops.gz b) = some b)
+    (a : AdSpec) (ha : a.body = "") (hk : keyCE ∉ a.hkeys) (r : Resp β) (b : β) (h : decoded ops r = some b) :
+    decoded ops (adaptorHandle ops a r) = some b := by
+  unfold adaptorHandle
+  apply content_roundtrip_adaptorCore ops hgz a ha
+  unfold decoded at *
+  simp only []
+  rw [get_adaptHeader_other a r.hdr keyCE hk]
+  exact h
+
 /-- **content_roundtrip**: through proxy compression and any chain of body-less adaptors the
 client can recover exactly the backend's content by undoing the labelled encoding. -/
 theorem content_roundtrip (hgz : ∀ b, ops.ungz (ops.gz b) = some b)
-    (compression : Option Nat) (reqHdr : Hdr) (as : List AdSpec) (has : ∀ a ∈ as, a.body = "")
+    (compression : Option Nat) (reqHdr : Hdr) (as : List AdSpec)
+    (has : ∀ a ∈ as, a.body = "" ∧ keyCE ∉ a.hkeys)
     (r : Resp β) (b : β) (h : decoded ops r = some b) :
     decoded ops (adaptorChain ops as
       (match compression with | none => r | some ml => proxyCompress ops ml reqHdr r)) = some b := by
@@ -479,9 +507,138 @@ theorem content_roundtrip (hgz : ∀ b, ops.ungz (ops.gz b) = some b)
   | nil => exact h0
   | cons a t ih =>
     exact ih (fun x hx => has x (by simp [hx])) _
-      (content_roundtrip_adaptor ops hgz a (has a (by simp)) r1 b h0)
+      (content_roundtrip_adaptor ops hgz a (has a (by simp)).1 (has a (by simp)).2 r1 b h0)
 
 end content
+
+/-! ### The pool's memory cache -/
+
+/-- Facts: a cache hit builds its response from a **copy** of the entry's header
+(`ce.Header.Clone()`) and installs the entry's body as a fresh payload (`SetPayload(ce.Body)`; filters
+replace payload slices, they never write into them); `Store` snapshots a copy of the header and is
+called right after `buildResponse`, before any later filter. This is what makes `alias = false` the
+right instance of `Model/ProxyCache.poolStep`. -/
+theorem cache_facts :
+    Gen.FactsC03.cacheHitBody = ["if sp.memoryCache == nil { return false }", "ce := sp.memoryCache.Load(spCtx.req)",
+      "if ce == nil { return false }", "resp, _ := httpprot.NewResponse(nil)", "resp.SetStatusCode(ce.StatusCode)",
+      "resp.Std().Header = ce.Header.Clone()", "resp.SetPayload(ce.Body)", "spCtx.resp = resp",
+      "spCtx.SetOutputResponse(resp)", "return true"] ∧
+    Gen.FactsC03.cacheStoreEntry = "CacheEntry{ StatusCode: resp.StatusCode(), Header: resp.HTTPHeader().Clone(), Body: resp.RawPayload(), }" ∧
+    Gen.FactsC03.cacheStoreAfterBuild = true := ⟨rfl, rfl, rfl⟩
+
+section cache
+variable {β : Type} (ops : BodyOps β)
+
+/-- Nothing after `FetchPayload` reads the `ContentLength` field: the adaptor commutes with
+changing it. -/
+theorem adaptorCore_setCl (a : AdSpec) (r : Resp β) (c : Int) :
+    adaptorCore ops a { r with cl := c } = { adaptorCore ops a r with cl := c } := by
+  obtain ⟨st, h, cl, pl⟩ := r
+  cases pl <;>
+  · simp only [adaptorCore, adaptorBody, adaptorCompress, adaptorDecompress]
+    repeat' split
+    all_goals simp_all
+
+theorem adaptorChain_setCl (as : List AdSpec) (r : Resp β) (c : Int) :
+    adaptorChain ops as { r with cl := c } = { adaptorChain ops as r with cl := c } := by
+  unfold adaptorChain
+  induction as generalizing r with
+  | nil => rfl
+  | cons a t ih =>
+    simp only [List.foldl_cons]
+    have : adaptorHandle ops a { r with cl := c } = { adaptorHandle ops a r with cl := c } := by
+      unfold adaptorHandle
+      exact adaptorCore_setCl ops a { r with hdr := adaptHeader a r.hdr } c
+    rw [this, ih]
+
+/-- The response a hit builds from the snapshot of `r` is `r` up to the `ContentLength` field. -/
+theorem respFromCache_snapshot (r : Resp β) (hb : r.payload.isStream = false) :
+    respFromCache ⟨r.status, r.hdr, r.payload.content⟩ = { r with cl := -1 } := by
+  obtain ⟨st, h, cl, pl⟩ := r
+  cases pl <;> simp_all [respFromCache, Pl.content, Pl.isStream]
+
+theorem ccHas_mono (h : Hdr) (ws ws' : List String) (hsub : ∀ w ∈ ws, w ∈ ws') (hn : ccHas h ws' = false) :
+    ccHas h ws = false := by
+  unfold ccHas at *
+  rw [List.any_eq_false] at *
+  intro v hv
+  have := hn v hv
+  simp only [Bool.not_eq_true] at this ⊢
+  rw [List.any_eq_false] at *
+  intro w hw
+  exact this w (hsub w hw)
+
+/-- A hit leaves the cache exactly as it was and answers from the entry. -/
+theorem poolStep_hit (cfg : CacheCfg) (as : List AdSpec) (c : Cache β) (q : PoolReq β) (e : CacheEntry β)
+    (hl : cacheLoad cfg q.key q.method q.hdr c = some e) :
+    poolStep ops cfg false as c q = (c, adaptorChain ops as (respFromCache e)) := by
+  simp [poolStep, hl]
+
+/-- **Cache entries are immutable under downstream transformations**: after a cacheable miss
+produced `r`, every later request with the same key / method / header — whatever the backend
+would answer by then, however many there are, whatever the response-editing filters `as` do —
+gets exactly the response the miss got (up to the internal ContentLength field). -/
+theorem cache_hits_equal_miss (cfg : CacheCfg) (as : List AdSpec) (c : Cache β) (q : PoolReq β) (r : Resp β)
+    (hmiss : cacheLoad cfg q.key q.method q.hdr c = none) (hfresh : q.fresh = some r)
+    (hst : storable ops cfg q.method q.hdr r = true)
+    (qs : List (PoolReq β)) (hsame : ∀ q' ∈ qs, q'.key = q.key ∧ q'.method = q.method ∧ q'.hdr = q.hdr) :
+    ∀ resp ∈ runHistory ops cfg false as c (q :: qs), resp.view = (adaptorChain ops as r).view := by
+  -- facts packed in `storable`
+  have hst' := hst
+  unfold storable at hst'
+  simp only [Bool.and_eq_true, Bool.not_eq_true', decide_eq_true_eq] at hst'
+  obtain ⟨⟨⟨⟨⟨hns, _⟩, hm⟩, _⟩, hreq⟩, _⟩ := hst'
+  have hnc : ccHas q.hdr ["no-cache"] = false :=
+    ccHas_mono q.hdr _ _ (by intro w hw; simp at hw; simp [hw]) hreq
+  -- first step: a miss that stores the snapshot
+  have hstep : poolStep ops cfg false as c q =
+      ((q.key, ⟨r.status, r.hdr, r.payload.content⟩) :: c, adaptorChain ops as r) := by
+    simp [poolStep, hmiss, hfresh, cacheStore, hst]
+  -- every later step is a hit on that snapshot
+  have hrest : ∀ (qs : List (PoolReq β)) (c' : Cache β),
+      (∀ q' ∈ qs, q'.key = q.key ∧ q'.method = q.method ∧ q'.hdr = q.hdr) →
+      c'.lookup q.key = some ⟨r.status, r.hdr, r.payload.content⟩ →
+      ∀ resp ∈ runHistory ops cfg false as c' qs, resp.view = (adaptorChain ops as r).view := by
+    intro qs
+    induction qs with
+    | nil => intro _ _ _ resp hr; simp [runHistory] at hr
+    | cons q' t ih =>
+      intro c' hs hlk resp hr
+      obtain ⟨hk, hme, hh⟩ := hs q' (by simp)
+      have hl : cacheLoad cfg q'.key q'.method q'.hdr c' = some ⟨r.status, r.hdr, r.payload.content⟩ := by
+        unfold cacheLoad
+        rw [hk, hme, hh]
+        have hm' : q.method ∈ cfg.methods := by simpa using hm
+        simp [hm', hnc, hlk]
+      have hp := poolStep_hit ops cfg as c' q' _ hl
+      simp only [runHistory, hp, List.mem_cons] at hr
+      rcases hr with hr | hr
+      · rw [hr, respFromCache_snapshot r hns, adaptorChain_setCl]
+        rfl
+      · exact ih c' (fun x hx => hs x (by simp [hx])) hlk resp hr
+  intro resp hr
+  simp only [runHistory, hstep, List.mem_cons] at hr
+  rcases hr with hr | hr
+  · rw [hr]
+  · exact hrest qs _ hsame (by simp [List.lookup]) resp hr
+
+/-- … and every one of those responses is well-framed if the Proxy's own response was. -/
+theorem cache_hits_well_framed (cfg : CacheCfg) (as : List AdSpec) (has : ∀ a ∈ as, keyCL ∉ a.hkeys)
+    (c : Cache β) (q : PoolReq β) (r : Resp β)
+    (hmiss : cacheLoad cfg q.key q.method q.hdr c = none) (hfresh : q.fresh = some r)
+    (hst : storable ops cfg q.method q.hdr r = true) (hwf : WellFramed ops r)
+    (qs : List (PoolReq β)) (hsame : ∀ q' ∈ qs, q'.key = q.key ∧ q'.method = q.method ∧ q'.hdr = q.hdr) :
+    ∀ resp ∈ runHistory ops cfg false as c (q :: qs), WellFramed ops resp := by
+  intro resp hr
+  have hv := cache_hits_equal_miss ops cfg as c q r hmiss hfresh hst qs hsame resp hr
+  have hw := pipeline_of_transformations_well_framed ops as has r hwf
+  unfold Resp.view at hv
+  simp only [Prod.mk.injEq] at hv
+  unfold WellFramed at *
+  rw [hv.2.1, hv.2.2]
+  exact hw
+
+end cache
 
 /-! ### Non-vacuity and the witnesses against the unrepaired code -/
 
@@ -520,5 +677,20 @@ example : cloneHeader id hopHeaders
 
 example : addrIsHostName (fun s => s == "::1".toList) "[::1]:8080".toList = false ∧
     addrIsHostName (fun _ => false) "example.com:80".toList = true := by decide
+
+/-- Memory cache, three identical cacheable GETs followed by a `compress: gzip` adaptor. With the
+copy (`alias = false`, the code) all three responses are well-framed and equal; if a hit handed
+out the entry's own header map (`alias = true`, the seeded defect C03-m3) the adaptor's edits of
+hit #1 would stay in the entry and hit #2 would declare the gzip length over the plain body. -/
+private def exCacheCfg : CacheCfg := ⟨[200], ["GET"], 100⟩
+private def exQ : PoolReq (List Nat) := ⟨"httpa/GET", "GET", [], some exResp, ⟨500, [], -1, .bytes []⟩⟩
+
+example : storable exOps exCacheCfg exQ.method exQ.hdr exResp = true := by decide
+
+example :
+    (runHistory exOps exCacheCfg false [{ compress := true }] [] [exQ, exQ, exQ]).map (wellFramedB exOps) = [true, true, true] ∧
+    (runHistory exOps exCacheCfg true [{ compress := true }] [] [exQ, exQ, exQ]).map (wellFramedB exOps) = [true, true, false] ∧
+    ((runHistory exOps exCacheCfg true [{ hadd := [("X-Added", "1")] }] [] [exQ, exQ, exQ]).map (·.hdr.get "X-Added"))
+      = [["1"], ["1"], ["1", "1"]] := by decide
 
 end EgVerif.C03
